@@ -196,11 +196,7 @@ static DIR_COUNTER: AtomicU64 = AtomicU64::new(0);
 
 fn fresh_dir(tag: &str) -> PathBuf {
     let n = DIR_COUNTER.fetch_add(1, Ordering::Relaxed);
-    let base = if std::path::Path::new("/dev/shm").is_dir() {
-        PathBuf::from("/dev/shm")
-    } else {
-        std::env::temp_dir()
-    };
+    let base = vkit::scratch_base();
     let p = base.join(format!("verif-c17-{}-{tag}-{n}", std::process::id()));
     let _ = std::fs::remove_dir_all(&p);
     std::fs::create_dir_all(&p).expect("create scratch dir");
